@@ -270,8 +270,9 @@ def run(cx: Cx):
     else:
         cx.inconclusive('R-GUARD', 'add_agent', 'no accepting path', where=cx.where(add_agent), function=add_agent.qualname)
 
-    from .common import check_overrides_forward
+    from .common import check_overrides_forward, check_no_static_alias
     check_overrides_forward(cx, SW, ['move', 'move_to', 'add_agent', 'remove_agent'])
+    check_no_static_alias(cx, CORE + 'Environment', ['add_agent', 'remove_agent'])
     # ------------------------------------------------------------ R-ATOMIC
     check_atomic(cx, move_to.qualname, ['IndexError', 'ComponentNotFoundError'])
     check_atomic(cx, move.qualname, ['ComponentNotFoundError'])
